@@ -1,4 +1,143 @@
-import Pun.Model.PBox
+import Pun.Lemmas.PBoxFrechet
+import Pun.Props.C01
+import Mathlib.Tactic.Ring
+/-!
+# C03 — perfect / opposite / independent arithmetic match their random-set meaning
+
+* `focal_mul_exact`, `focal_add_exact`: the four-corner min/max used for every focal pair is the
+  exact interval combination (sound for every point selection, endpoints attained);
+* `perfectOp_perm_sorted`, `oppositeOp_perm_sorted`: the returned bounds are the sorted lower /
+  upper endpoints of the paired focal combinations (pairing `k ↦ k`, resp. `k ↦ n-1-k`);
+* `perfect_add_steps`: for the sum the unsorted arrays are already monotone, so step `k` of the
+  result IS `X_k + Y_k`;
+* `condense_index`, `condense_block`: condensing the `n²` sorted endpoints of the independent rule
+  takes entry `k(n+1)`, which lies in the `k`-th block of `n` — "within one probability step".
+Not proved here (tie + oracle only): the `p ↔ o` mirroring of `sub`/`div` through the constructor.
+-/
+set_option linter.unusedSimpArgs false
+set_option linter.unusedVariables false
 namespace Pun.PBox
-theorem placeholder_c03 : True := trivial
+open Pun
+
+theorem min4_eq_arith (a b c d : Rat) : min4 a b c d = Arith.min4 a b c d := by
+  unfold min4 Arith.min4; rw [min_assoc (min a b) c d]
+
+theorem max4_eq_arith (a b c d : Rat) : max4 a b c d = Arith.max4 a b c d := by
+  unfold max4 Arith.max4; rw [max_assoc (max a b) c d]
+
+/-- product of two focal intervals: the corner min/max encloses every pointwise product and both
+are attained at corners -/
+theorem focal_mul_exact (a b c d : Rat) (hab : a ≤ b) (hcd : c ≤ d) :
+    (∀ x y, a ≤ x → x ≤ b → c ≤ y → y ≤ d →
+      min4 (a*c) (a*d) (b*c) (b*d) ≤ x*y ∧ x*y ≤ max4 (a*c) (a*d) (b*c) (b*d)) ∧
+    (∃ x y, a ≤ x ∧ x ≤ b ∧ c ≤ y ∧ y ≤ d ∧ x*y = min4 (a*c) (a*d) (b*c) (b*d)) ∧
+    (∃ x y, a ≤ x ∧ x ≤ b ∧ c ≤ y ∧ y ≤ d ∧ x*y = max4 (a*c) (a*d) (b*c) (b*d)) := by
+  rw [min4_eq_arith, max4_eq_arith]
+  obtain ⟨l, h, htab, hs, hlo, hhi⟩ := Arith.mul_exact_image a b c d hab hcd
+  rw [Arith.mulTable_exact a b c d hab hcd] at htab
+  have e := Option.some.inj htab
+  have e1 : Arith.min4 (a*c) (a*d) (b*c) (b*d) = l := congrArg Prod.fst e
+  have e2 : Arith.max4 (a*c) (a*d) (b*c) (b*d) = h := congrArg Prod.snd e
+  rw [e1, e2]
+  exact ⟨hs, hlo, hhi⟩
+
+/-- sum of two focal intervals: the corner min/max are `a+c` and `b+d` -/
+theorem focal_add_exact (a b c d : Rat) (hab : a ≤ b) (hcd : c ≤ d) :
+    min4 (a+c) (a+d) (b+c) (b+d) = a + c ∧ max4 (a+c) (a+d) (b+c) (b+d) = b + d := by
+  unfold min4 max4
+  constructor
+  · rw [min_eq_left (by linarith : a + c ≤ a + d), min_eq_left (by linarith : a + c ≤ b + c),
+      min_eq_left (by linarith : a + c ≤ b + d)]
+  · exact max_eq_right (max_le (max_le (by linarith) (by linarith)) (by linarith))
+
+theorem sortR_perm (l : List Rat) : (sortR l).Perm l := List.mergeSort_perm l _
+
+theorem sortR_sorted (l : List Rat) : (sortR l).Pairwise (· ≤ ·) := by
+  have := List.pairwise_mergeSort (le := fun a b : Rat => decide (a ≤ b))
+    (fun a b c h1 h2 => by simp at h1 h2 ⊢; exact le_trans h1 h2)
+    (fun a b => by simp; exact le_total a b) l
+  exact this.imp (fun h => by simpa using h)
+
+/-- perfect dependence: the bounds are the sorted lower / upper endpoints of the focal pairs `(X_k, Y_k)` -/
+theorem perfectOp_perm_sorted (op : Rat → Rat → Rat) (X Y : PB) :
+    let fp := cornerPair op X.left X.right Y.left Y.right
+    (perfectOp op X Y).1.Perm fp.1 ∧ (perfectOp op X Y).2.Perm fp.2 ∧
+    (perfectOp op X Y).1.Pairwise (· ≤ ·) ∧ (perfectOp op X Y).2.Pairwise (· ≤ ·) :=
+  ⟨sortR_perm _, sortR_perm _, sortR_sorted _, sortR_sorted _⟩
+
+/-- opposite dependence: the same with the pairing `(X_k, Y_{n-1-k})` -/
+theorem oppositeOp_perm_sorted (op : Rat → Rat → Rat) (X Y : PB) :
+    let fp := cornerPair op X.left X.right Y.left.reverse Y.right.reverse
+    (oppositeOp op X Y).1.Perm fp.1 ∧ (oppositeOp op X Y).2.Perm fp.2 ∧
+    (oppositeOp op X Y).1.Pairwise (· ≤ ·) ∧ (oppositeOp op X Y).2.Pairwise (· ≤ ·) :=
+  ⟨sortR_perm _, sortR_perm _, sortR_sorted _, sortR_sorted _⟩
+
+/-- the independent rule returns the sorted endpoints of all `n²` focal combinations -/
+theorem independentOp_sorted (op : Rat → Rat → Rat) (X Y : PB) :
+    (independentOp op X Y).1.Pairwise (· ≤ ·) ∧ (independentOp op X Y).2.Pairwise (· ≤ ·) :=
+  ⟨sortR_sorted _, sortR_sorted _⟩
+
+/-- focal sums: with `left ≤ right` step by step the four-corner rule is `left+left`, `right+right` -/
+theorem cornerPair_add (xl xr yl yr : List Rat) (hx : List.Forall₂ (· ≤ ·) xl xr)
+    (hy : List.Forall₂ (· ≤ ·) yl yr) :
+    cornerPair (· + ·) xl xr yl yr = (List.zipWith (· + ·) xl yl, List.zipWith (· + ·) xr yr) := by
+  induction hx generalizing yl yr with
+  | nil => simp [cornerPair, zip4]
+  | @cons a b ta tb hab _ ih =>
+    cases hy with
+    | nil => simp [cornerPair, zip4]
+    | @cons c d tc td hcd htl =>
+      have := ih tc td htl
+      simp only [cornerPair, List.zipWith_cons_cons, zip4, Prod.mk.injEq] at this ⊢
+      obtain ⟨e1, e2⟩ := focal_add_exact a b c d hab hcd
+      rw [e1, e2, this.1, this.2]
+      exact ⟨rfl, rfl⟩
+
+theorem zipWith_add_sorted (a b : List Rat) (sa : a.Pairwise (· ≤ ·)) (sb : b.Pairwise (· ≤ ·)) :
+    (List.zipWith (· + ·) a b).Pairwise (· ≤ ·) := by
+  rw [List.pairwise_iff_getElem]
+  intro i j hi hj hij
+  simp only [List.length_zipWith, lt_min_iff] at hi hj
+  simp only [List.getElem_zipWith]
+  exact add_le_add ((List.pairwise_iff_getElem.mp sa) i j hi.1 hj.1 hij)
+    ((List.pairwise_iff_getElem.mp sb) i j hi.2 hj.2 hij)
+
+/-- **perfect dependence, sum**: step `k` of the result is exactly `X_k + Y_k` (no re-ordering) -/
+theorem perfect_add_steps (X Y : PB) (hX : List.Forall₂ (· ≤ ·) X.left X.right)
+    (hY : List.Forall₂ (· ≤ ·) Y.left Y.right)
+    (sxl : X.left.Pairwise (· ≤ ·)) (sxr : X.right.Pairwise (· ≤ ·))
+    (syl : Y.left.Pairwise (· ≤ ·)) (syr : Y.right.Pairwise (· ≤ ·)) :
+    perfectOp (· + ·) X Y =
+      (List.zipWith (· + ·) X.left Y.left, List.zipWith (· + ·) X.right Y.right) := by
+  unfold perfectOp
+  rw [cornerPair_add _ _ _ _ hX hY]
+  simp only
+  rw [sortR_of_sorted _ (zipWith_add_sorted _ _ sxl syl), sortR_of_sorted _ (zipWith_add_sorted _ _ sxr syr)]
+
+example : perfectOp (· + ·) ⟨[1, 2], [2, 4]⟩ ⟨[0, 5], [1, 6]⟩ = ([1, 7], [3, 10]) := by
+  rw [perfect_add_steps] <;> decide +kernel
+
+/-- condensation index for `n²` values down to `n`: entry `k(n+1)` -/
+theorem condense_index (n k : Nat) (hn : 2 ≤ n) : condenseIdx (n * n) n k = k * (n + 1) := by
+  unfold condenseIdx
+  have h1 : ¬ n ≤ 1 := by omega
+  simp only [h1, if_false]
+  have h2 : n * n - 1 = (n + 1) * (n - 1) := by
+    obtain ⟨m, rfl⟩ : ∃ m, n = m + 2 := ⟨n - 2, by omega⟩
+    have e1 : m + 2 - 1 = m + 1 := by omega
+    have e2 : (m + 2) * (m + 2) = (m + 2 + 1) * (m + 1) + 1 := by ring
+    rw [e1, e2]; omega
+  rw [h2, ← Nat.mul_assoc, Nat.mul_div_cancel _ (by omega : 0 < n - 1)]
+
+/-- … which lies in the `k`-th block of `n` consecutive order statistics -/
+theorem condense_block (n k : Nat) (hn : 2 ≤ n) (hk : k < n) :
+    k * n ≤ condenseIdx (n * n) n k ∧ condenseIdx (n * n) n k ≤ k * n + (n - 1) := by
+  rw [condense_index n k hn]
+  constructor
+  · nlinarith
+  · have : k * (n + 1) = k * n + k := by ring
+    omega
+
+example : condenseIdx (200 * 200) 200 7 = 7 * 201 := by decide +kernel
+
 end Pun.PBox
